@@ -338,6 +338,31 @@ func (e *Eng) Set(parent []byte, height int64, kvs []KV) (root []byte, status st
 	return root, status
 }
 
+// Del is DelKVPair (tree API: Tree.Remove for every key, then Tree.Save); returns the new root and removed values.
+func (e *Eng) Del(parent []byte, keys [][]byte) (root []byte, vals [][]byte, status string) {
+	status = gen.Guard(func() string {
+		h, vs, err := mavldb.DelKVPair(e.store.GetDB(), &types.StoreGet{StateHash: parent, Keys: keys}, e.tcfg)
+		if err != nil {
+			if err == mavldb.ErrNodeNotExist {
+				return "notfound"
+			}
+			return "err:" + err.Error()
+		}
+		root, vals = h, vs
+		s := make([]string, len(vs))
+		for i, v := range vs {
+			if len(v) == 0 {
+				s[i] = "-"
+			} else {
+				s[i] = hex.EncodeToString(v)
+			}
+		}
+		return "root " + Hx(h) + " " + strings.Join(s, ",")
+	})
+	e.Out.Op(fmt.Sprintf("del %s %s", Hx(parent), showKeys(keys)), status)
+	return
+}
+
 // MemSet is Store.MemSet.
 func (e *Eng) MemSet(parent []byte, height int64, kvs []KV) (root []byte, status string) {
 	status = gen.Guard(func() string {
@@ -701,7 +726,7 @@ func (e *Eng) replayLine(f []string) bool {
 		} else {
 			e.Rollback(r)
 		}
-	case "get":
+	case "get", "del":
 		if !need(3) {
 			return false
 		}
@@ -710,7 +735,11 @@ func (e *Eng) replayLine(f []string) bool {
 		if !ok1 || !ok2 {
 			return false
 		}
-		e.Get(r, ks)
+		if f[0] == "del" {
+			e.Del(r, ks)
+		} else {
+			e.Get(r, ks)
+		}
 	case "iter":
 		if !need(6) {
 			return false
